@@ -102,6 +102,12 @@ def rule_accept(prop, repo, ls, spec, cfgname):
             R.violation("%s:accept:%s" % (prop, path), "%s never inspects the prefix byte: every first byte is accepted (expected %s)" %
                         (path, sorted(sp["prefix"])), body.file_line(), path)
             continue
+        must = sp.get("total_lens")
+        if must is not None:
+            failing = sorted(((n, b) for (n, b), o in ex.items() if n in must and (o.variants & ERRISH)), key=str)
+            R.check(not failing, "%s:may-reject:%s" % (prop, path),
+                    "%s [%s] can return None/Err for lengths where the value must be reduced, not rejected: %s" % (path, cfgname, failing[:6]),
+                    body.file_line(), path)
         extra = sorted(accepted - want, key=str)
         missing = sorted(want - accepted, key=str)
         R.check(not extra and not missing, "%s:accept:%s" % (prop, path),
